@@ -66,7 +66,7 @@ Section Interp.
             | KGen => let (h, w1) := new_gen (GNew (f_wrapper d a kw)) w in EVal (inl (VGen h)) w1
             | KSync => match run _ (f_wrapper d a kw) w with
                        | Done r w1 => EVal r w1
-                       | Susp _ _ w1 => EVal (inr bad_yield) w1
+                       | Susp _ _ _ => EVal (inr bad_yield) w   (* impossible in Python: `yield` in a plain function makes it a generator *)
                        | OutOfFuel => EOut end
             | KAsync => match run _ (f_wrapper d a kw) w with
                         | Done r w1 => EVal r w1
@@ -85,7 +85,7 @@ Section Interp.
             | KGen => let (h, w1) := new_gen (GNew (log (EvBody f a kw) ;;; f_body d a kw)) w in EVal (inl (VGen h)) w1
             | KSync => match run _ (f_body d a kw) w0 with
                        | Done r w1 => EVal r w1
-                       | Susp _ _ w1 => EVal (inr bad_yield) w1
+                       | Susp _ _ _ => EVal (inr bad_yield) w   (* impossible in Python: `yield` in a plain function makes it a generator *)
                        | OutOfFuel => EOut end
             | KAsync => match run _ (f_body d a kw) w0 with
                         | Done r w1 => EVal r w1
